@@ -148,6 +148,7 @@ type routeCfg struct {
 	Enc, Comp   bool
 	Plugin      string `json:"plugin"` // "", http2http, http2https, https2http, https2https
 	Limit       string `json:"limit"`  // "", client, server: bandwidth limit (generous: 50 MB/s) enforced on that side
+	Shared      bool   `json:"shared"` // the vhost port is the control port (first-bytes dispatch in front of the vhost server)
 }
 
 func bodyOf(kind string) []byte {
@@ -315,6 +316,9 @@ func newWorld(rt routeCfg, timeoutS int64) (*world, string) {
 	be := startBackend(backendTLS)
 	vport := rw.FreePort()
 	srv, err := rw.StartServer(func(s *v1.ServerConfig) {
+		if rt.Shared {
+			vport = s.BindPort
+		}
 		if frontTLS {
 			s.VhostHTTPSPort = vport
 		} else {
@@ -577,12 +581,14 @@ func main() {
 	routes := []routeCfg{{Name: "plain"}, {Name: "rewrite", RewriteHost: true}, {Name: "reqset", ReqHeaders: true}, {Name: "respset", RespHeaders: true},
 		{Name: "all+enc+comp", RewriteHost: true, ReqHeaders: true, RespHeaders: true, Enc: true, Comp: true}}
 	routes = append(routes, routeCfg{Name: "srvlimit+enc+comp", Enc: true, Comp: true, Limit: "server"}, routeCfg{Name: "srvlimit", Limit: "server"}, routeCfg{Name: "clilimit+comp", Comp: true, Limit: "client"})
+	routes = append(routes, routeCfg{Name: "shared", Shared: true}, routeCfg{Name: "shared+all+enc", Shared: true, RewriteHost: true, ReqHeaders: true, RespHeaders: true, Enc: true})
 	if !c.Quick() {
 		routes = append(routes, routeCfg{Name: "enc", Enc: true}, routeCfg{Name: "comp", Comp: true}, routeCfg{Name: "srvlimit+enc", Enc: true, Limit: "server"}, routeCfg{Name: "srvlimit+comp", Comp: true, Limit: "server"})
 	}
 	plugins := []routeCfg{{Name: "http2http", Plugin: "http2http"}, {Name: "http2https", Plugin: "http2https"}, {Name: "https2http", Plugin: "https2http"}, {Name: "https2https", Plugin: "https2https"},
 		{Name: "http2http+comp", Plugin: "http2http", Comp: true}, {Name: "https2http+enc+comp", Plugin: "https2http", Enc: true, Comp: true},
-		{Name: "http2http+rw", Plugin: "http2http", RewriteHost: true, ReqHeaders: true}, {Name: "https2http+rw", Plugin: "https2http", RewriteHost: true, ReqHeaders: true}}
+		{Name: "http2http+rw", Plugin: "http2http", RewriteHost: true, ReqHeaders: true}, {Name: "https2http+rw", Plugin: "https2http", RewriteHost: true, ReqHeaders: true},
+		{Name: "https2http+shared", Plugin: "https2http", Shared: true}}
 	methods := []string{"GET", "HEAD", "POST", "PUT", "DELETE", "PATCH", "OPTIONS"}
 	targets := []string{"/", "/a%2Fb", "/a%20b?x=1&y=%26", "//x", "/" + strings.Repeat("seg/", 200) + "?q=" + strings.Repeat("z", 500)}
 	hsets := []string{"none", "multi", "mixedcase", "large", "huge", "hopbyhop", "xff", "respextra"}
